@@ -1,12 +1,12 @@
 (* C14 — the streaming base64 codec follows RFC 4648 and round-trips under any
    chunking.  Statements only; each is closed by a lemma proved elsewhere.
-   Counted: the 5 Theorems.  Audited, not counted: the three Examples and Check pins.
+   Counted: the 7 Theorems.  Audited, not counted: the three Examples and Check pins.
    encode_chunks / decode_all = model of Base64Encoder / Base64Decoder (Encoder/Base64.v);
    rfc4648 = the specification; sched = what the inner reader returns per call, dests = sizes
    of the caller's buffers.  Assumed: the reader returns 0 only at end of input. *)
 From Coq Require Import List NArith Arith.
 From SNT Require Import Base.Outcome Gen.TabBase64 Encoder.Base64
-  Encoder.Base64Proofs Encoder.Base64DecProofs.
+  Encoder.Base64Proofs Encoder.Base64DecProofs Encoder.Base64Prog Encoder.Base64ProgProofs.
 Import ListNotations.
 Local Open Scope N_scope.
 
@@ -38,6 +38,29 @@ Theorem C14_nopanic : forall (text : list N) (sched dests : list nat),
   end.
 Proof. exact decode_all_total. Qed.
 
+(* ONE decoder consumed by ANY program of operations of the std::io::Read surface (read n,
+   read_exact n, read_to_end / read_to_string, read_vectored, bytes() k times, take(n), BufReader
+   wrappers; Encoder/Base64Prog.v defines them as the iterations of `read` that std's default
+   methods are — an assumption about std, and about the crate not overriding them: anchored by
+   translate/c14impl.py): no operation fails, the bytes handed out, in order, are a prefix of x —
+   nothing repeated, nothing lost — and when the program ran to its end and contains a draining
+   operation they are exactly x.  (read_exact past the end stops the program with UnexpectedEof.) *)
+Theorem C14_programs : forall (x : list N) (sched : list nat) (ops : list dop),
+  bytes_ok x = true ->
+  let rs := decode_prog (rfc4648 x) sched ops in
+  (forall r, In r rs -> r <> Failed /\ r <> Bad) /\
+  (exists rest, x = gotten rs ++ rest) /\
+  (all_got rs = true -> In OToEnd ops -> gotten rs = x).
+Proof. exact decode_prog_roundtrip. Qed.
+
+(* ONE encoder fed by any program of write operations (write / write_all / write_fmt, write_vectored
+   with std's default "first non-empty buffer", flush anywhere), then finish(): the RFC 4648 text
+   of the bytes the encoder accepted *)
+Theorem C14_encode_programs : forall ops : list eop,
+  bytes_ok (accepted_all ops) = true ->
+  snd (encode_prog ops true) = rfc4648 (accepted_all ops).
+Proof. exact encode_prog_rfc. Qed.
+
 (* the tables in the source are the RFC alphabet and its inverse (regenerated data) *)
 Theorem C14_tables : forall i, i < 64 ->
   tbl_enc i = rfc_char i /\ tbl_dec (rfc_char i) = i.
@@ -56,6 +79,11 @@ Example C14_encode_example :
 Proof. vm_compute. split; reflexivity. Qed.
 Example C14_decode_example :
   decode_all [84; 87; 70; 117] [1; 1; 1; 1]%nat [1]%nat = Ok [77; 97; 110].
+Proof. vm_compute. reflexivity. Qed.
+(* a header sniffed with read(5) and read_exact(2), then read_to_end: "Many hands" *)
+Example C14_programs_example :
+  decode_prog (rfc4648 [77; 97; 110; 121; 32; 104; 97; 110; 100; 115]) [1; 2; 3]%nat [ORead 5; OExact 2; OToEnd]
+  = [Got [77; 97; 110; 121; 32]; Got [104; 97]; Got [110; 100; 115]].
 Proof. vm_compute. reflexivity. Qed.
 Example C14_reject_example :
   decode_all [84; 87; 70; 117; 84] [] [] = Err 1.
